@@ -62,7 +62,7 @@ theorem commute_replace_toks (S : Schema) (d da db dab dba : Node) (f1 t1 f2 t2 
   have kb := apply_replace_fromReplace S d db f2 t2 s2 b2 hb
   obtain ⟨hda, h1, hl1, hwf1, _⟩ := fromReplace_toks S d da f1 t1 s1 ka
   obtain ⟨hdb, h2, hl2, hwf2, _⟩ := fromReplace_toks S d db f2 t2 s2 kb
-  obtain ⟨hlen1, hs1⟩ := Slice.toks_length_of_wf s1 hwf1
+  obtain ⟨hlen1, hs1⟩ := Slice.toks_length_of_wf_ex s1 hwf1
   obtain ⟨r1, r2⟩ := rebase_separated_after f1 t1 f2 t2 s1 s2 b1 b2 h1 h2 hsep hs1
   rw [r1] at hb'; rw [r2] at ha'
   simp only [Option.some.injEq] at hb' ha'
@@ -96,7 +96,7 @@ theorem commute_replace (S : Schema) (d da db dab dba : Node) (f1 t1 f2 t2 : Nat
   have kb := apply_replace_fromReplace S d db f2 t2 s2 b2 hb
   obtain ⟨_, h1, _, hwf1, _⟩ := fromReplace_toks S d da f1 t1 s1 ka
   obtain ⟨_, h2, _, _, _⟩ := fromReplace_toks S d db f2 t2 s2 kb
-  obtain ⟨_, hs1⟩ := Slice.toks_length_of_wf s1 hwf1
+  obtain ⟨_, hs1⟩ := Slice.toks_length_of_wf_ex s1 hwf1
   obtain ⟨r1, r2⟩ := rebase_separated_after f1 t1 f2 t2 s1 s2 b1 b2 h1 h2 hsep hs1
   rw [r1] at hb'; rw [r2] at ha'
   simp only [Option.some.injEq] at hb' ha'
@@ -327,7 +327,7 @@ theorem commute_replace_mark_partial (S : Schema) (d da db dab dba : Node) (f t 
   have hsp : (Step.addMark f2 t2 mk).posSpan = some (f2, t2) := rfl
   have kfa := apply_replace_fromReplace S d da f t sl b ha
   obtain ⟨hda, hft, htl, hwf, _⟩ := fromReplace_toks S d da f t sl kfa
-  obtain ⟨hlen, hs0⟩ := Slice.toks_length_of_wf sl hwf
+  obtain ⟨hlen, hs0⟩ := Slice.toks_length_of_wf_ex sl hwf
   have hmapped := (rebase_markup_not_dropped _ f2 t2 hsp hle f t sl b hft).2 hsep
   rw [hmapped] at hM'
   simp only [Step.mapPos, Option.some.injEq, Step.addMark.injEq, and_true] at hM'
